@@ -59,4 +59,16 @@ theorem mul4_assoc2 (V G : Nat → Nat → ℝ) (r k : Nat) :
     mul4 (tr4 (mul4 V G)) (mul4 V G) r k = mul4 (tr4 G) (mul4 (mul4 (tr4 V) V) G) r k := by
   simp only [mul4, tr4]; ring
 
+/-- the column swap of `jacobi`'s final sort -/
+def swapCols (v : Mat ℝ) (k j : Nat) : Mat ℝ :=
+  (List.range 4).foldl (fun v i =>
+    let t := v i k
+    let v := upd v i k (v i j)
+    upd v i j t) v
+
+theorem swapCols_entry (v : Mat ℝ) (k j : Nat) (hjk : j < k) (hk : k < 4) (r c : Nat) (hr : r < 4) (hc : c < 4) :
+    swapCols v k j r c = v r (if c = k then j else if c = j then k else c) := by
+  interval_cases k <;> interval_cases j <;> interval_cases r <;> interval_cases c <;>
+    simp [swapCols, upd, List.range_succ]
+
 end Shelx.C20
